@@ -932,7 +932,8 @@ class Check:
         def _get_arg_val(name, cond, func, val, can_be_empty=True):
             if val is _MISSING:
                 return ()
-            if not is_iterable(val):
+            if isinstance(val, type) or not is_iterable(val):
+                # (a class can be iterable itself: an Enum is one type, not its members)
                 val = (val,)
             elif not val and not can_be_empty:
                 raise ValueError('expected %r argument to contain at least one value,'
